@@ -293,6 +293,75 @@ def check_simple_lookups(ctx, N):
                 ctx.violation(fn, 'dedicated-vs-default', 'lookup returns element %r for %s' % (i, mdl), {'input': None, 'model': str(mdl)})
         ctx.cov['sub_checks'][fn] = len(res)
 
+    # lookups with an eligibility bit: parameterised parent (child_fields present), type-level ghosts (applicable_to[kind]),
+    # where_clause / child_parents (always eligible); plus the boolean has_parent_attr / has_parameterless_parent_attr
+    dt_empty = dict(attrs=VecV([]), ghosts_attrs=VecV([]), where_attrs=VecV([]), child_parents_attrs=VecV([]), error_instrs=VecV([]))
+    for fn, mode in (('attr::MemberAttrs::parameterized_parent_attr', 'parent'), ('attr::MemberAttrs::has_parent_attr', 'has_parent'),
+                     ('attr::MemberAttrs::has_parameterless_parent_attr', 'has_bare_parent'), ('attr::DataTypeAttrs::where_attr', 'where'),
+                     ('attr::DataTypeAttrs::child_parents_attr', 'cps'), ('attr::DataTypeAttrs::ghosts_attr', 'ghosts')):
+        for kind in (KINDS if mode == 'ghosts' else [None]):
+            holder = {}
+
+            def run3(eng):
+                deds, elig, items = [], [], []
+                for i in range(N):
+                    ded = b.fresh_int('ded%d' % i, 0, 2)
+                    el = eng.fresh('el%d' % i, 'bool')
+                    deds.append(ded); elig.append(el)
+                    cty = b.opt(ded != 0, b.type_path(SymStr(ded - 1, TYS)))
+                    if mode in ('parent', 'has_parent', 'has_bare_parent'):
+                        items.append(b.mk('attr::ParentAttr', container_ty=cty, child_fields=b.opt(el, VecV([]))))
+                    elif mode == 'where':
+                        items.append(b.mk('attr::WhereAttr', container_ty=cty, where_clause=VecV([])))
+                    elif mode == 'cps':
+                        items.append(b.mk('attr::ChildParentsAttr', container_ty=cty, child_parents=VecV([])))
+                    else:
+                        bits = [el if KINDS[j] == kind else eng.fresh('o%d_%d' % (i, j), 'bool') for j in range(6)]
+                        items.append(b.mk('attr::GhostsAttr', attr=b.mk('attr::StructGhostAttrCore', container_ty=cty, ghost_data=VecV([])), applicable_to=b.appl(bits)))
+                q = b.fresh_int('q', 1, 2)
+                holder['v'] = (deds, elig, q)
+                qty = Ref(Cell(b.type_path(SymStr(q - 1, TYS))))
+                if mode in ('parent', 'has_parent', 'has_bare_parent'):
+                    kw = dict(empty); kw['parent_attrs'] = VecV(items)
+                    r = eng.call_fn(eng.inherent[fn], [Ref(Cell(b.mk('attr::MemberAttrs', **kw))), qty])
+                else:
+                    kw = dict(dt_empty); kw[{'where': 'where_attrs', 'cps': 'child_parents_attrs', 'ghosts': 'ghosts_attrs'}[mode]] = VecV(items)
+                    args = [Ref(Cell(b.mk('attr::DataTypeAttrs', **kw))), qty] + ([Ref(Cell(b.kind(kind)))] if mode == 'ghosts' else [])
+                    r = eng.call_fn(eng.inherent[fn], args)
+                if mode in ('has_parent', 'has_bare_parent'):
+                    return ('bool', r)
+                if r.d == 0:
+                    return None
+                ref = r.p[1][0]
+                idxs = [p[1] for p in ref.proj if p[0] == 'f']
+                return idxs[1]
+            res = e.explore(run3)
+            ctx.absorb(e, res)
+            deds, elig, q = holder['v']
+            for r in res:
+                if r.kind != 'ok':
+                    ctx.violation(fn + ':panic', r.value, 'panic', {'input': None}); continue
+                v = r.value
+                if mode == 'has_parent':
+                    want = z3.Or([z3.Or(d == 0, d == q) for d in deds])
+                    claim = (v[1] == want) if not isinstance(v[1], bool) else (want if v[1] else z3.Not(want))
+                elif mode == 'has_bare_parent':
+                    want = z3.Or([z3.And(z3.Not(el), z3.Or(d == 0, d == q)) for d, el in zip(deds, elig)])
+                    claim = (v[1] == want) if not isinstance(v[1], bool) else (want if v[1] else z3.Not(want))
+                else:
+                    always = mode in ('where', 'cps')
+                    el = [z3.BoolVal(True)] * N if always else elig
+                    any_ded = z3.Or([z3.And(d == q, x) for d, x in zip(deds, el)])
+                    any_def = z3.Or([z3.And(d == 0, x) for d, x in zip(deds, el)])
+                    if v is None:
+                        claim = z3.And(z3.Not(any_ded), z3.Not(any_def))
+                    else:
+                        claim = z3.And(el[v], z3.Or(deds[v] == q, z3.And(deds[v] == 0, z3.Not(any_ded))))
+                good, mdl = ctx.prove(r.pc, claim)
+                if not good:
+                    ctx.violation(fn, 'dedicated-vs-default', 'lookup returns %r for %s' % (v, mdl), {'input': None, 'model': str(mdl)})
+            ctx.cov['sub_checks'][fn + (':' + kind if kind else '')] = len(res)
+
     # get_for_kind: exact kind, else into for into_existing
     rows, uni = kernels.summarize(ctx, e, 'member')
     mtab = kernels.map_table(rows)
